@@ -346,6 +346,48 @@ theorem removeFirstN_length_le (e : β) : ∀ (n : Nat) (l : List β),
     · have := removeFirstN_length_le e n ys; simp; omega
     · have := removeFirstN_length_le e (n + 1) ys; simp; omega
 
+omit [DecidableEq α] in
+/-- split a list at its first member satisfying `q` -/
+theorem split_first (q : α → Bool) : ∀ l : List α,
+    (∃ pre x post, l = pre ++ x :: post ∧ q x = true ∧ ∀ y ∈ pre, q y = false) ∨
+    (∀ y ∈ l, q y = false)
+  | [] => Or.inr (by simp)
+  | a :: l => by
+    cases hq : q a with
+    | true => exact Or.inl ⟨[], a, l, rfl, hq, by simp⟩
+    | false =>
+      rcases split_first q l with ⟨pre, x, post, hl, hx, hpre⟩ | hall
+      · refine Or.inl ⟨a :: pre, x, post, by rw [hl]; rfl, hx, ?_⟩
+        intro y hy
+        rcases List.mem_cons.1 hy with rfl | hy
+        · exact hq
+        · exact hpre y hy
+      · refine Or.inr ?_
+        intro y hy
+        rcases List.mem_cons.1 hy with rfl | hy
+        · exact hq
+        · exact hall y hy
+
+omit [DecidableEq α] [LawfulBEq β] in
+theorem insertAt_none (p x : β) (after : Bool) : ∀ l : List β, (∀ y ∈ l, (y == p) = false) →
+    Spec.insertAt p x after l = none
+  | [], _ => rfl
+  | a :: l, h => by
+    simp only [Spec.insertAt, h a (by simp), Bool.false_eq_true, if_false]
+    rw [insertAt_none p x after l (fun y hy => h y (List.mem_cons_of_mem _ hy))]
+    rfl
+
+omit [DecidableEq α] [LawfulBEq β] in
+theorem insertAt_split (p x : β) (after : Bool) (a : β) (ha : (a == p) = true) (post : List β) :
+    ∀ pre : List β, (∀ y ∈ pre, (y == p) = false) →
+    Spec.insertAt p x after (pre ++ a :: post)
+      = some (if after then pre ++ a :: x :: post else pre ++ x :: a :: post)
+  | [], _ => by simp [Spec.insertAt, ha]
+  | b :: pre, h => by
+    simp only [List.cons_append, Spec.insertAt, h b (by simp), Bool.false_eq_true, if_false]
+    rw [insertAt_split p x after a ha post pre (fun y hy => h y (List.mem_cons_of_mem _ hy))]
+    cases after <;> rfl
+
 end lists
 
 end Redka.ListOrd
